@@ -317,6 +317,47 @@ def run_driver(pid, requests, timeout=3600):
 
 
 # ----------------------------------------------------------------------------------------------
+# modelled-function fingerprints (search heuristic only, DESIGN §9: never part of the argument)
+# ----------------------------------------------------------------------------------------------
+def function_hashes(names):
+    """names: ["autoarray/mask/mask_2d_util.py:mask_slim_indexes_from", "pkg/file.py:Class.method", ...]
+    -> {name: sha1 of the docstring-free AST dump, or "missing"} for the current REPO tree."""
+    import ast
+
+    out = {}
+    cache = {}
+    for name in names:
+        try:
+            path, qual = name.split(":")
+            if path not in cache:
+                cache[path] = ast.parse((REPO / path).read_text())
+            node = cache[path]
+            for part in qual.split("."):
+                node = next(n for n in node.body
+                            if isinstance(n, (ast.FunctionDef, ast.ClassDef, ast.AsyncFunctionDef))
+                            and n.name == part)
+            for sub in ast.walk(node):  # drop docstrings
+                if isinstance(sub, (ast.FunctionDef, ast.ClassDef)) and sub.body and isinstance(
+                        sub.body[0], ast.Expr) and isinstance(getattr(sub.body[0], "value", None), ast.Constant) \
+                        and isinstance(sub.body[0].value.value, str):
+                    sub.body = sub.body[1:] or [ast.Pass()]
+            out[name] = hashlib.sha1(ast.dump(node).encode()).hexdigest()[:16]
+        except Exception:
+            out[name] = "missing"
+    return out
+
+
+def changed_modelled_functions(chk):
+    names = list(getattr(chk, "modelled_functions", []) or [])
+    if not names:
+        return []
+    f = VERIF / "harness" / "model_map.json"
+    base = json.loads(f.read_text()).get(chk.pid, {}) if f.exists() else {}
+    cur = function_hashes(names)
+    return sorted(n for n in names if n in base and base[n] != cur[n])
+
+
+# ----------------------------------------------------------------------------------------------
 # the property-check base class
 # ----------------------------------------------------------------------------------------------
 class Skip(Exception):
@@ -331,6 +372,11 @@ class PropertyCheck:
     atol = Fraction(0)
     nontrivial_rule = "case has at least one unmasked and one masked pixel / non-degenerate input"
     trusted_extra = []  # property-specific trusted-base entries
+    # "path/under/repo.py:function" or "path.py:Class.method" of every Python function the Lean model
+    # transliterates; when one of them differs from the fingerprint recorded in harness/model_map.json
+    # the quick tier generates with the thorough budget (bounded by escalation_budget_s)
+    modelled_functions = []
+    escalation_budget_s = 240
     search_budget_s = {"quick": 60, "thorough": 600}
 
     # -- to be provided by the property module -------------------------------------------------
@@ -490,14 +536,21 @@ def run_check(chk: PropertyCheck, tier: str, seed: int, replay: str | None = Non
     # ---------------------------------------------------------------- 2/3. correspondence + oracle
     load_autoarray()
     rng = random.Random(seed)
+    changed_fns = [] if replay else changed_modelled_functions(chk)
     if replay:
         rp = json.loads(Path(replay).read_text())
         cases = [rp["input"]] if "input" in rp and rp["input"] else []
     else:
         cases = list(chk.corpus())
-        for c in chk.generate(tier, rng):
+        gen_tier = tier
+        if tier == "quick" and changed_fns:
+            gen_tier = "thorough"  # modelled code changed: look harder (heuristic, see DESIGN §9)
+        t_gen = time.time()
+        for c in chk.generate(gen_tier, rng):
             cases.append(c)
             if max_cases and len(cases) >= max_cases:
+                break
+            if gen_tier != tier and time.time() - t_gen > chk.escalation_budget_s / 4 and len(cases) > 200:
                 break
 
     tags = {}
@@ -681,6 +734,8 @@ def run_check(chk: PropertyCheck, tier: str, seed: int, replay: str | None = Non
             "known_findings_seen": sorted(known_seen),
             "failing_input_search_cases": searched,
             "leanchecker": rechecked,
+            "modelled_functions": len(getattr(chk, "modelled_functions", []) or []),
+            "modelled_functions_changed": changed_fns,
             "exhaustive": bool(getattr(chk, "exhaustive_note", {}).get(tier)),
             "exhaustive_note": getattr(chk, "exhaustive_note", {}).get(tier, ""),
         },
